@@ -5,7 +5,7 @@ from props._fa_common import TRUSTED, ASSUMPTIONS, TECHNIQUE
 
 PROP = "C03"
 LEVEL = "proof"
-THEOREMS = {"Properties.C03": ["C03_reverse", "C03_intersection", "C03_complement", "C03_union_ref", "C03_concat_ref", "C03_star_ref", "C03_difference"]}
+THEOREMS = {"Properties.C03": ["C03_reverse", "C03_intersection", "C03_complement", "C03_union_ref", "C03_concat_ref", "C03_star_ref", "C03_difference", "C03_intersection_total"]}
 LEVEL_TEXT = ("Coq theorems (no axioms): reverse, the product construction and complement-after-determinisation compute exactly the mirror image, "
               "intersection and complement for all automata; difference is their composition. Every automaton pyformlang returns is compared with the "
               "model's construction by the proved-exact equivalence checker. union/concatenate/kleene_star (implemented through to_regex) are covered "
